@@ -39,6 +39,17 @@ def generate(rng, tier, seed):
             kk = rng.choice([17, 33, 70])
             cases.append({"scn": ["conc", ["objects", ["pipe", ["op", "take", [kk], ["interval", d]]]], ["init", ["sub", 0, 0]], ["threads"], ["fini"], ["sched", "random", base, 2]],
                           "kind": "interval", "d": d, "k": kk})
+        if rng.random() < 0.3:
+            # a period that is not a whole number of milliseconds
+            dus = rng.choice([100, 400, 900, 1500])
+            ku = rng.choice([2, 3, 5])
+            cases.append({"scn": ["conc", ["objects", ["pipe", ["op", "take", [ku], ["interval_us", dus]]]], ["init", ["sub", 0, 0]], ["threads"], ["fini"], ["sched"] + sched],
+                          "kind": "interval-us", "d": d, "dus": dus, "k": ku})
+        if rng.random() < 0.3:
+            # ONE timeout Observable value subscribed twice over a hot source, both subscriptions alive: each has its own deadline
+            g = rng.choice([1, 2])
+            cases.append({"scn": ["conc", ["objects", ["subject", "subject"], ["pipe", ["op", "timeout", [d], ["hot", 0]]]], ["init", ["sub", 0, 0], ["sub", 1, 0]],
+                                  ["threads", ["e", ["sleep", g], ["next", 0, 10]]], ["fini"], ["sched"] + sched], "kind": "timeout-two", "d": d, "g": g})
         tu = rng.choice([1, d + 1, 2 * d + 1, 3 * d + 2])
         cases.append({"scn": ["conc", ["objects", ["pipe", ["interval", d]]], ["init", ["sub", 0, 0]], ["threads", ["u", ["sleep", tu], ["unsub", 0]]], ["fini"], ["sched"] + sched],
                       "kind": "interval-unsub", "d": d, "tu": tu})
@@ -143,6 +154,19 @@ def judge_one(case, ob):
             bad.append("interval(%d ms).take(%d) delivered %s (time ns, tick), expected %s" % (case["d"], case["k"], items, want))
         if [e[0] for _, e in terms] != ["c"] or terms[0][0] != case["k"] * d:
             bad.append("expected complete at %d ms, got %s" % (case["k"] * case["d"], terms))
+    elif kind == "interval-us":
+        want = [((i + 1) * case["dus"] * 1000, i) for i in range(case["k"])]
+        if items != want:
+            bad.append("interval(%d us).take(%d) delivered %s (time ns, tick), expected %s" % (case["dus"], case["k"], items, want))
+    elif kind == "timeout-two":
+        t0 = case["g"] * MS
+        for u in (0, 1):
+            mine = [(int(r[1]), r[5]) for r in ob["ev"] if r[3] == "cb" and int(r[4]) == u]
+            its = [(t, int(e_[1])) for t, e_ in mine if e_[0] == "n"]
+            tms = [(t, e_[0], str(e_[1]) if len(e_) > 1 else "") for t, e_ in mine if e_[0] != "n"]
+            if its != [(t0, 10)] or tms != [(t0 + d, "e", "9999")]:
+                bad.append("two subscriptions of one timeout(%d ms) Observable over a hot source that emits once at %d ms: subscriber %d received items %s terminals %s, expected the item and TimedOut at %d ms" % (
+                    case["d"], case["g"], u, its, tms, case["g"] + case["d"]))
     elif kind == "interval-unsub":
         tu = case["tu"] * MS
         want = [((i + 1) * d, i) for i in range(0, 10) if (i + 1) * d < tu]
